@@ -19,7 +19,7 @@ U = {'url1': 'https://sp1.verif.example/acs/one', 'url2': 'https://sp1.verif.exa
      'urlB': 'https://sp2.verif.example/acs', 'slo1': 'https://sp1.verif.example/slo/soap',
      'slo2': 'https://sp1.verif.example/slo/redirect', 'sloB': 'https://sp2.verif.example/slo',
      'url1-case': 'https://SP1.verif.example/acs/one', 'url1-slash': 'https://sp1.verif.example/acs/one/',
-     'url1-query': 'https://sp1.verif.example/acs/one?x=1', 'unregistered': 'https://evil.example/acs'}
+     'url1-query': 'https://sp1.verif.example/acs/one?x=1', 'url1-port': 'https://sp1.verif.example:8443/acs/one', 'unregistered': 'https://evil.example/acs'}
 UREV = dict((v, k) for k, v in U.items())
 ACS = {'L1': [('POST', 'url1', 1)], 'L2': [('POST', 'url1', 1), ('POST', 'url2', 2), ('Redirect', 'url3', 3)],
        'L3': [('Redirect', 'url3', 1)], 'L4': [('Artifact', 'url4', 2), ('POST', 'url1', 1)]}
@@ -45,6 +45,13 @@ def replay(case):
     idp = spc.idp_for(metadata=md)
     now = spc.now()
     obs = {'result': None, 'exc': None}
+    prev = {'none': None, 'sp1_url1': (SP1, 'url1'), 'sp2_urlB': (SP2, 'urlB')}[scn.get('prev', 'none')]
+    if prev:
+        try:
+            pdoc = sb.authn_request(rid='req0', issuer=prev[0], destination=env.IDP1_SSO, acs_url=U[prev[1]], issue_instant=env.ts(now - 6))
+            idp.response_args(idp.parse_authn_request(sb.deflate_b64(pdoc), env.BINDING_REDIRECT).message)
+        except Exception:
+            pass
     try:
         if scn['typ'] == 'authn':
             doc = sb.authn_request(issuer=ISS[scn['issuer']], destination=env.IDP1_SSO,
@@ -108,8 +115,8 @@ def main():
     if answered == 0 and not chk.violations:
         raise fw.Machinery('no request was answered: templates broken')
     chk.cov['exhaustive'] = True
-    chk.cov['rule'] = ('all 2 172 scenarios of IdPAnswer.tla: 4 metadata layouts x issuer (known, other known, unknown) x consumer URL '
-                      '(absent, registered ones, other SP\'s, case / trailing-slash / query near misses, unregistered) x index x '
+    chk.cov['rule'] = ('all scenarios of IdPAnswer.tla: request answered just before on the same server (none / sp1 / sp2) x 4 metadata layouts x issuer (known, other known, unknown) x consumer URL '
+                      '(absent, registered ones, other SP\'s, case / trailing-slash / query / port near misses, unregistered) x index x '
                       'ProtocolBinding, plus logout requests')
     chk.assumptions = ['requests are unsigned and delivered over HTTP-Redirect; metadata written from templates']
     return chk.finish()
